@@ -213,7 +213,7 @@ pub fn run(s: &Scn, ctx: &mut RunCtx) -> RunOutput {
             }
             Status::Panicked => {
                 had_fault = true;
-                if i >= n || s.callers[i].beh.out != Outcome::Panic {
+                if i >= n || !matches!(s.callers[i].beh.out, Outcome::Panic | Outcome::PanicInCall) {
                     world::violation("C13.in_flight_exact", "panic", format!("caller {} panicked: {:?}", i, t.panic_msg));
                 }
             }
